@@ -1,3 +1,6 @@
+#[cfg(rva_verif)]
+use crate::verif_collections::HashSet;
+#[cfg(not(rva_verif))]
 use std::collections::HashSet;
 
 use super::{Imm, LabelStringToken, Register, RegisterToken};
